@@ -534,15 +534,22 @@ func cmdCheck(args []string) int {
 	var thorough map[string]any
 	if tier == "thorough" && violations == 0 && os.Getenv("GVC_NO_SELFTEST") == "" {
 		thorough = e.thoroughExtras(id, keys)
-		if n, _ := thorough["smoke_violations"].(int); n > 0 {
+		if n, _ := thorough["smoke_report_count"].(int); n > 0 {
+			var elsewhere []string
 			for _, v := range thorough["smoke_reports"].([]string) {
 				// a scenario recorded as a known finding (any property: a crash is every property's business)
 				knownScenario := false
 				for i := range known {
 					k := &known[i]
 					if k.Status == "known" && strings.HasPrefix(k.Obligation, "scenario:") && strings.Contains(v, "scenario \""+strings.TrimPrefix(k.Obligation, "scenario:")+"\"") {
-						fmt.Printf("KNOWN-FINDING: property=%s %s — %s\n", id, k.Obligation, k.What)
-						knownHit = append(knownHit, k.Obligation)
+						// the shared scenario harness reports it under every property; the finding is
+						// announced by the property it is listed for and only noted in the evidence elsewhere
+						if k.Property == id {
+							fmt.Printf("KNOWN-FINDING: property=%s %s — %s\n", id, k.Obligation, k.What)
+							knownHit = append(knownHit, k.Obligation)
+						} else {
+							elsewhere = append(elsewhere, k.Property+" "+k.Obligation)
+						}
 						knownScenario = true
 					}
 				}
@@ -556,6 +563,7 @@ func cmdCheck(args []string) int {
 				fmt.Printf("VIOLATION property=%s replay=%s reason=%q\n", id, rp, "scenario harness on the unchanged tree: "+v)
 				violations++
 			}
+			thorough["smoke_reports_listed_as_known_finding_of_another_property"] = elsewhere
 		}
 		cov["thorough"] = thorough
 	}
